@@ -19,6 +19,10 @@ P = {
          'value 1 at and below aspect 1, value at 1 = formula at 1 for the algebraic factors of every shape incl. cuboid, array call = scalar call entry-wise for symbolic length (float and int dtype) with the caller array unchanged, ShapeFactor wiring, '
          'and the bisection loop of _findRcrit with an invariant (bracket ordered, sign change kept, midpoint, counter): every return is a root to the tolerance or the 100-iteration fallback.',
          'monotonicity in aspect ratio and limits at 1+ of the transcendental factors undecided; spheroid closed forms trusted geometry'),
+ 'C17': ('The four bound rules executed on symbolic mobility matrices (p phases x e elements) and fractions on the simplex: each result within [min, max] of the phase mobilities, lower Wiener <= lower HS <= upper HS <= upper Wiener (NRA), '
+         'equality to the phase mobility for p = 1, invariance under every permutation of the phase rows, arguments (incl. -1 markers of possibly cached arrays) unchanged; labyrinth(1) = upper Wiener, labyrinth(n>=1) <= upper Wiener, factor clipped to [1,2]; '
+         'post-processing acts on the row of the phase NAMED by the user among the stable phases for several stable-phase lists incl. single-phase and reordered, is idempotent, ignores absent phases; computeHomogenizationFunction passes the stable names.',
+         'p <= 2 in the quick tier (p = 3 ordering in the thorough tier), e <= 2; p = 4 not attempted'),
  'C19': ('testCondition of all six condition classes x both inequalities executed on a PrecipitateBase object with a symbolic history: reads the monitored value at pData.n of the model it is '
          'given, latch, interpolated crossing time within [t(n-1), t(n)] (NRA), reset; stop decision of PrecipitateBase.postProcess for every or/and mix of <= 3 conditions; solver-loop stop clause (C05); TTP calculator wiring.',
          'P, E <= 2; model sub-steps of postProcess are arbitrary callables'),
